@@ -31,6 +31,7 @@ type Program struct {
 	cells      map[*ssa.Alloc]*cellInfo
 	boxed      map[string]bool
 	immFields  map[string]bool
+	effC       map[*ssa.Function]*FuncContract
 
 	tagOf   map[string]int // type string -> tag
 	tagType map[int]types.Type
